@@ -67,6 +67,10 @@ type Contract struct {
 	Covers   bool
 	Replay   string
 	Ghosts   []SpecParam
+	Preimages []*PreClause
+	HashFamily string
+	HashOf     *SExpr   // digest expression of the family member (default: result)
+	Concrete   []string // callees whose `abstract` marking is ignored in this unit (their bodies are executed)
 	Instance string // generic function: verify the instance whose name contains this text
 }
 
@@ -118,7 +122,7 @@ var (
 var clauseKeywords = map[string]bool{
 	"prop": true, "mode": true, "requires": true, "ensures": true, "panics-iff": true, "may-panic": true,
 	"invariant": true, "decreases": true, "unroll": true, "modifies": true, "let": true, "trusted": true,
-	"abstract": true, "inline": true, "split": true, "assert": true, "replay": true, "no-panic": true, "ghost": true, "instance": true,
+	"abstract": true, "inline": true, "split": true, "assert": true, "replay": true, "no-panic": true, "ghost": true, "instance": true, "preimage": true, "hash-family": true, "concrete": true,
 }
 
 // qualify turns a contract-file function key into the ssa full name.
@@ -331,6 +335,24 @@ func (cs *ContractStore) addClause(c *Contract, kw, rest, where string) error {
 		c.Inline = true
 	case "instance":
 		c.Instance = rest
+	case "concrete":
+		c.Concrete = append(c.Concrete, strings.Fields(strings.ReplaceAll(rest, ",", " "))...)
+	case "hash-family":
+		c.HashFamily = rest
+		if j := strings.Index(rest, " of "); j >= 0 {
+			c.HashFamily = strings.TrimSpace(rest[:j])
+			e, err := ParseSpec(strings.TrimSpace(rest[j+4:]))
+			if err != nil {
+				return fmt.Errorf("%s: %v", where, err)
+			}
+			c.HashOf = e
+		}
+	case "preimage":
+		pc, err := parsePreimage(rest, where)
+		if err != nil {
+			return err
+		}
+		c.Preimages = append(c.Preimages, pc)
 	case "ghost":
 		parts := strings.Fields(rest)
 		if len(parts) != 2 {
